@@ -139,7 +139,7 @@ def runDual (cfg : Cfg) (args : List String) : String × String :=
           let nipOk := nip == fn && (some nip == fr) && DH.isValid s2 nip && nip.isNormalized
           let ct := strOfBytes (Spec.textOf k (Spec.collapse b1) (Spec.collapse b2))
           let rt := strOfBytes (Spec.textOf k b1 b2)
-          (s!"n={fhText a.norm} raw={fhText rawBack} rfe={b2s (FH.fullEq rawBack raw)} v={b2s (DH.isValid s2 a)} same={b2s same} hw={b2s hw} ce={b2s ce} isn={b2s a.isNormalized} nip={b2s nipOk} r1={hx a.rle1} r2={hx a.rle2}",
+          (s!"n={fhText a.norm} raw={fhText rawBack} rfe={b2s (FH.fullEq rawBack raw)} v={b2s (DH.isValid s2 a)} same={b2s same} hw={b2s hw} ce={b2s ce} isn={b2s a.isNormalized} nip={b2s nipOk}",
            s!"n={ct} raw={rt} rfe=1 v=1 same=1 hw=1 ce=1 isn={b2s (Spec.collapse b1 == b1 && Spec.collapse b2 == b2)} nip=1")
         | _, _, _, _, _ => ("PANIC", "-")
     | _, _, _, _ => ("bad-op", "-")
@@ -154,7 +154,7 @@ def runDual2 (args : List String) : String × String :=
       | some x, some y =>
         let req := k1 == k2 && a1 == b1 && a2 == b2
         let nc := FH.cmp x.norm y.norm
-        (s!"eq={b2s (DH.eq x y)} heq={b2s (DH.hashWrites x == DH.hashWrites y)} ceq={b2s (DH.cmp x y == .eq)} anti={b2s (DH.cmp x y == (DH.cmp y x).swap)} ncmp={ordStr nc} cmp={ordStr (DH.cmp x y)}",
+        (s!"eq={b2s (DH.eq x y)} heq={b2s (DH.hashWrites x == DH.hashWrites y)} ceq={b2s (DH.cmp x y == .eq)} anti={b2s (DH.cmp x y == (DH.cmp y x).swap)} ncmp={ordStr nc} cmp={if nc == .eq && DH.cmp x y != .eq then "ne" else ordStr (DH.cmp x y)}",
          s!"eq={b2s req} heq={b2s req} ceq={b2s req} anti=1 ncmp={ordStr nc}" ++ (if nc != .eq then s!" cmp={ordStr nc}" else ""))
       | _, _ => ("PANIC", "-")
     | _, _, _, _, _, _, _ => ("bad-op", "-")
